@@ -122,7 +122,7 @@ _act = re.compile(r"^(\w+)(?:\((.*)\))?$")
 
 def replay_paths(sub, chunk):
     from bzrformats.errors import BzrCheckError
-    for fmt, remote, comps, nodes, path in chunk:
+    for pidx, (fmt, remote, comps, nodes, path) in enumerate(chunk):
         fx = FIX[fmt]
         repo = fx.new_target(remote)
         try:
@@ -152,21 +152,14 @@ def replay_paths(sub, chunk):
                         elif name == "Suspend":
                             tokens = repo.suspend_write_group()
                         elif name == "Resume":
-                            try:
-                                repo.resume_write_group(tokens)
-                            except AssertionError as e:
-                                if not any(c[0] == "Resume" for c in calls):
-                                    raise
-                                # second suspend/resume cycle on the SAME object: report, then carry on the way a
-                                # server would (fresh object), so the rest of the path is still checked
-                                sub.violation("resume-after-second-suspend-same-object:AssertionError",
-                                              "resume_write_group(%d tokens) on the object that suspended twice: %s" % (
-                                                  len(tokens), str(e)[:80]),
-                                              {"format": fmt, "remote": remote, "calls": calls + [[name, arg, "AssertionError"]]})
+                            # "later resuming": a fresh repository object, as another process / the smart server would;
+                            # every other path resumes its FIRST suspension on the same object (what local callers do)
+                            first = not any(c[0] == "Resume" for c in calls)
+                            if not (first and pidx % 2 == 0) and not remote:
                                 stale.append(repo)
-                                repo = R_open(fx.url) if not remote else repo
+                                repo = R_open(fx.url)
                                 repo.lock_write()
-                                repo.resume_write_group(tokens)
+                            repo.resume_write_group(tokens)
                     except Exception as e:
                         outcome = "error:" + type(e).__name__
                     calls.append([name, arg, outcome])
@@ -225,6 +218,40 @@ def replay_paths(sub, chunk):
             fx.close()
 
 
+def double_suspend_same_object(ctx, fmt):
+    """The one call sequence the known finding is about: suspend . resume . suspend . resume on ONE object."""
+    fx = FIX[fmt]
+    repo = fx.new_target()
+    calls = [["Start", "", "ok"], ["Ins", "sig", "ok"], ["Suspend", "", "ok"], ["Resume", "", "ok"], ["Ins", "txt", "ok"],
+             ["Suspend", "", "ok"]]
+    try:
+        repo.lock_write()
+        repo.start_write_group()
+        fx.insert(repo, "sig")
+        t = repo.suspend_write_group()
+        repo.resume_write_group(t)
+        fx.insert(repo, "txt")
+        t2 = repo.suspend_write_group()
+        try:
+            repo.resume_write_group(t2)
+            repo.commit_write_group()
+            got = fx.project()
+            if got["visible"] != ["sig", "txt"]:
+                ctx.violation("visible-mismatch:Commit:double-suspend-same-object", "fresh open sees %s" % got["visible"],
+                              {"format": fmt, "calls": calls + [["Resume", "", "ok"], ["Commit", "", "ok"]]})
+        except AssertionError as e:
+            ctx.violation("resume-after-second-suspend-same-object:AssertionError",
+                          "resume_write_group(%d tokens) on the object that suspended twice: %s" % (len(t2), str(e)[:80]),
+                          {"format": fmt, "calls": calls + [["Resume", "", "AssertionError"]]})
+        ctx.count(1, traces=1)
+    finally:
+        try:
+            repo.unlock()
+        except Exception:
+            pass
+        fx.close()
+
+
 def R_open(url):
     from breezy import repository as R
     return R.Repository.open(url)
@@ -242,7 +269,7 @@ def run(ctx):
     for fmt, remote, comps, haschk, maxins in plans:
         if fmt not in FIX:
             FIX[fmt] = Fixture(fmt)
-        for w in ("WitnessRefused", "WitnessResumedCommit"):
+        for w in ("WitnessRefused", "WitnessResumedCommit", "WitnessTwoTokensCommitted"):
             tlc.check(ctx, "WriteGroup", cfg_text=cfg(comps, haschk, maxins, "INVARIANT %s\n" % w).replace(
                 "PROPERTY NoEffectUntilCommit\nPROPERTY RefusalIsNoop\n", ""), expect_violation=w, label="witness " + w, workers=4)
         nodes, edges, inits, res = tlc.graph(ctx, "WriteGroup", cfg_text=cfg(comps, haschk, maxins), workers=4,
@@ -253,6 +280,8 @@ def run(ctx):
         for p in paths:
             jobs.append((fmt, remote, comps, {nid: nodes[nid] for _, nid in p}, p))
     core.fork_map(ctx, replay_paths, jobs)
+    for fmt in sorted({p[0] for p in plans}):
+        double_suspend_same_object(ctx, fmt)
     ctx.cov["exhaustive"] = True
     ctx.rule("paths = transition cover of TLC's state graph of WriteGroup.tla (every edge = one write-group API call in "
              "one abstract state); distinct = (format, call sequence with outcomes)")
